@@ -9,7 +9,7 @@ from vlib import drive
 PROPERTY = "C03"
 RULE = ("history: SpatiallyAdaptiveSingleDimensions2 (d 1-3, lmin 1-2, lmax=lmin+1..2, versions 6/2/3/7/8, rebalancing on/off, "
         "boundary on/off, margins, safety factors, boxes) driven by a scripted decision tape for up to 25 steps with an "
-        "arbitrary (nowhere exact) integrand; all clauses are evaluated after EVERY evaluate_operation on every component "
+        "arbitrary (nowhere exact) integrand (without boundary points in a quarter of the cases one that is inf / nan / raises on the boundary of the box); all clauses are evaluated after EVERY evaluate_operation on every component "
         "grid of the current scheme. Non-trivial = a history with >=1 step that raised lmax in some dimension and >=1 step "
         "that refined a strict subset of the intervals. Distinct = distinct case dict.")
 ASSUMPTIONS = [
@@ -67,7 +67,12 @@ def check_scheme(out, sub, sa, boundary, fvals, tag):
 def run(case):
     out = Outcome()
     sub = "history"
-    g = drive.fit_to_box(drive.driver_function(case["dim"], case["fseed"]), case["a"], case["b"])
+    g = drive.case_function(case)
+    singular = (not case["boundary"]) and case["fseed"] % 4 == 3
+    if singular:
+        # without boundary points the integrand may be non-finite on the boundary of the box
+        g = drive.singular_on_boundary(g, case["a"], case["b"], (case["fseed"] // 4) % 3)
+        out.cls("integrand-not-finite-on-the-excluded-boundary")
     f = drive.vector_function([g])
     sa, op = drive.build_dw(case, f)
     st_ = dict(strict=0, raised=0, lmax=None, steps=0, maxpts=0, before=None)
@@ -95,6 +100,7 @@ def run(case):
         out.cls("strict-subset-step")
     if st_["raised"]:
         out.cls("lmax-raised")
+    out.cls(drive.scale_class(case))
     out.cls("version=%d" % case["version"], "rebalancing=%s" % case["rebalancing"], "boundary=%s" % case["boundary"], "d=%d" % case["dim"])
     if case.get("legs"):
         out.cls("history-cut-into-%d-runs" % min(len(case["legs"]) + 1, 4))
@@ -105,7 +111,7 @@ def run(case):
 
 
 def strategy(tier):
-    return drive.st_dw_case(tier=tier)
+    return drive.st_dw_case(tier=tier, scales=True)
 
 
 def selftest():
